@@ -94,7 +94,7 @@ claim("C20", "E5",
 
 claim("C15", "E4+E3",
       "static analysis: crash-containment who-may-call rules, call-graph SCC (recursion) census with re-checked guards (dominance, depth constants, acyclicity check ordering), natural-loop census over MIR CFGs with class witnesses, unsafe census, error-discard census",
-      "Static decision of the crash-containment structure behind 'bad input ends in a reported error': every job runs under catch_unwind and unwinding "
+      "Known findings printed by the check: seven todo!() stubs in fontra2fontir (X3) and the unbounded recursion DEPTH of fontbe bbox_of_composite (X4: a valid 6000-level component chain overflows a worker stack, exit 134; reproduced). Static decision of the crash-containment structure behind 'bad input ends in a reported error': every job runs under catch_unwind and unwinding "
       "is not disabled; process exit/abort only in the binary and always non-zero on error; no font file written on failure; no todo!() reachable on "
       "the main thread (the seven Fontra stubs are listed known findings); every recursive call cycle reachable from the entry points has a recorded "
       "termination/stack argument, and for recursion whose depth follows the input (plist nesting, component graph, include graph) the guard that "
